@@ -289,6 +289,19 @@ func (f *fields) delAt(i int) bool {
 	copy(a[i:], a[i+1:])
 	a[len(a)-1] = nil
 	f.a = a[:len(a)-1]
+
+	// the elements behind i moved down by one: keep the index they store in sync
+	for j := i; j < len(f.a); j++ {
+		switch v := f.a[j].(type) {
+		case nil:
+		case cfgSub:
+			v.c.ctx.field = fmt.Sprintf("%d", j)
+		default:
+			ctx := v.Context()
+			ctx.field = fmt.Sprintf("%d", j)
+			v.SetContext(ctx)
+		}
+	}
 	return true
 }
 
